@@ -152,4 +152,29 @@ OracleValue(o, K, St, D) ==
 NoProps == [x \in {} |-> {}]
 Holds(law, K, St, D) == Sat(K, St, NoProps, D, law.lhs, <<>>) = Sat(K, St, NoProps, D, law.rhs, <<>>)
 OracleHolds(o, K, St, D) == Sat(K, St, NoProps, D, o.lhs, <<>>) = OracleValue(o, K, St, D)
+(* ---- SUBSTITUTION laws (C10 beyond explicit semantics): a closed sub-formula may be replaced by a wild-card ---- *)
+(* ---- that holds its pre-computed result.  ctx has the hole %S%; sub is closed and wild-card-free, so the    ---- *)
+(* ---- harness can compute it with the plain API; the inlined right-hand side is COMPUTED here (Inline) and   ---- *)
+(* ---- exported, the harness builds nothing.  Binders of ctx use y, those of sub use x (no capture).          ---- *)
+AttrF == Hy("bind", "x", "", Un("AG", Un("EF", Var("x"))))
+RECURSIVE Inline(_, _)
+Inline(f, g) ==
+  IF f.op = "wild" THEN (IF f.name = "S" THEN g ELSE f)
+  ELSE IF "b" \in DOMAIN f THEN [f EXCEPT !.a = Inline(f.a, g), !.b = Inline(f.b, g)]
+  ELSE IF "a" \in DOMAIN f THEN [f EXCEPT !.a = Inline(f.a, g)]
+  ELSE f
+Sb(id, ctx, sub) == [id |-> id, lhs |-> ctx, sub |-> sub, rhs |-> Inline(ctx, sub)]
+Substitutions == <<
+  Sb("subst_EF_steady", Un("EF", S), SteadyF),
+  Sb("subst_AGEF_attr", Un("AG", Un("EF", S)), AttrF),
+  Sb("subst_AX_steady", And(T, Un("AX", Or(S, R))), SteadyF),
+  Sb("subst_EU_attr", Bi("EU", Not(S), And(S, T)), AttrF),
+  Sb("subst_twice_attr", And(Un("EX", S), Not(Un("AX", S))), AttrF),                 \* two occurrences: a cached duplicate
+  Sb("subst_neg_steady", Un("AF", Not(S)), SteadyF),
+  Sb("subst_under_exists", Hy("exists", "y", "", And(Hy("jump", "y", "", S), Un("EF", Var("y")))), SteadyF),
+  Sb("subst_under_bind", Hy("bind", "y", "", Un("EX", And(Not(Var("y")), S))), AttrF)
+>>
+SubstHolds(sb, K, St, D) ==
+  LET D2 == [D EXCEPT !["S"] = Sat(K, St, NoProps, D, sb.sub, <<>>)]
+  IN  Sat(K, St, NoProps, D2, sb.lhs, <<>>) = Sat(K, St, NoProps, D, sb.rhs, <<>>)
 =============================================================================
